@@ -4,7 +4,6 @@ package router
 // with scripted upstreams, and client seams for every listener kind.
 
 import (
-	"runtime/debug"
 	"context"
 	"errors"
 	"fmt"
@@ -12,6 +11,7 @@ import (
 	"net/netip"
 	"os"
 	"path/filepath"
+	"runtime/debug"
 	"strings"
 	"sync"
 	"testing"
@@ -29,7 +29,8 @@ import (
 
 func init() {
 	debug.SetMaxStack(32 << 20) // a runaway recursion in the implementation fails fast instead of growing to 1 GB
- zerolog.SetGlobalLevel(zerolog.Disabled) }
+	zerolog.SetGlobalLevel(zerolog.Disabled)
+}
 
 var vRace = os.Getenv("VERIF_RACE") == "1"
 
@@ -47,6 +48,7 @@ type upQuery struct {
 	Wire     []byte
 	Msg      *refdns.Msg
 	ch       chan upResult
+	u        *scriptUp
 	Answered bool
 	Gone     bool // the exchange context ended before an answer was delivered
 }
@@ -64,7 +66,7 @@ type scriptUp struct {
 var errScripted = errors.New("scripted upstream failure")
 
 func (u *scriptUp) ExchangeContext(ctx context.Context, m []byte) (*dnsmsg.Msg, error) {
-	q := &upQuery{Up: u.tag, At: time.Now(), Wire: append([]byte(nil), m...), ch: make(chan upResult, 1)}
+	q := &upQuery{Up: u.tag, At: time.Now(), Wire: append([]byte(nil), m...), ch: make(chan upResult, 1), u: u}
 	q.Msg, _ = refdns.Decode(q.Wire)
 	u.mu.Lock()
 	q.Idx = len(u.qs)
@@ -72,8 +74,13 @@ func (u *scriptUp) ExchangeContext(ctx context.Context, m []byte) (*dnsmsg.Msg, 
 	auto := u.Auto
 	u.mu.Unlock()
 	if auto != nil {
-		if r := auto(q); r != nil {
+		// the auto responder touches harness state: it runs as part of the harness
+		var r *upResult
+		publish(func() { r = auto(q) })
+		if r != nil {
+			u.mu.Lock()
 			q.Answered = true
+			u.mu.Unlock()
 			q.ch <- *r
 		}
 	}
@@ -105,8 +112,10 @@ func (u *scriptUp) Queries() []*upQuery {
 
 // Pending returns queries that can still be answered.
 func (u *scriptUp) Pending() []*upQuery {
+	u.mu.Lock()
+	defer u.mu.Unlock()
 	var out []*upQuery
-	for _, q := range u.Queries() {
+	for _, q := range u.qs {
 		if !q.Answered && !q.Gone {
 			out = append(out, q)
 		}
@@ -114,8 +123,18 @@ func (u *scriptUp) Pending() []*upQuery {
 	return out
 }
 
-func (q *upQuery) Reply(wire []byte) { q.Answered = true; q.ch <- upResult{wire: wire} }
-func (q *upQuery) Fail()             { q.Answered = true; q.ch <- upResult{err: errScripted} }
+func (q *upQuery) Reply(wire []byte) {
+	q.u.mu.Lock()
+	q.Answered = true
+	q.u.mu.Unlock()
+	q.ch <- upResult{wire: wire}
+}
+func (q *upQuery) Fail() {
+	q.u.mu.Lock()
+	q.Answered = true
+	q.u.mu.Unlock()
+	q.ch <- upResult{err: errScripted}
+}
 
 // ---------------------------------------------------------------- router under test
 
@@ -169,10 +188,10 @@ func (v *vRouter) Close() {
 		u.Auto = func(*upQuery) *upResult { return &upResult{err: errScripted} }
 		u.mu.Unlock()
 	}
-	synctest.Wait()
+	wait()
 	v.r.close(nil)
-	time.Sleep(7 * time.Second) // request deadlines, otter's 1 s cleanup poll
-	synctest.Wait()
+	hsleep(7 * time.Second) // request deadlines, otter's 1 s cleanup poll
+	wait()
 }
 
 // vTmpFile writes a file under a per-process temp dir (domain lists, ip markers).
@@ -236,7 +255,7 @@ func (v *vRouter) tcpClient(s *tcpServer, remote, local netip.AddrPort) *streamC
 	go func() { // as tcpServer.run does
 		s.handleConn(impl)
 		impl.Close()
-		c.done = true
+		publish(func() { c.done = true })
 	}()
 	return c
 }
@@ -277,7 +296,6 @@ func bubble(t *testing.T, f func()) {
 		f()
 	})
 }
-func wait()                         { synctest.Wait() }
 
 func runExplore(t *testing.T, rep *report.R, bound int, scenario func(c *choice.Ctx)) choice.Stats {
 	sh, n := report.Shard()
@@ -285,7 +303,10 @@ func runExplore(t *testing.T, rep *report.R, bound int, scenario func(c *choice.
 	if rp := report.ReplayFile(); rp != nil {
 		var x struct{ Choices []int }
 		rp.Decode(&x)
-		c := choice.Replay(x.Choices, true, func(c *choice.Ctx) bool { bubble(t, func() { scenario(c) }); return true })
+		c := choice.Replay(x.Choices, true, func(c *choice.Ctx) bool {
+			bubble(t, func() { hmu.Lock(); defer hmu.Unlock(); scenario(c) })
+			return true
+		})
 		rep.Note("replayed: " + strings.Join(c.Trace(), " "))
 		return choice.Stats{Executions: 1}
 	}
@@ -295,8 +316,10 @@ func runExplore(t *testing.T, rep *report.R, bound int, scenario func(c *choice.
 	bubble(t, func() {
 		st = choice.Explore(opt, func(c *choice.Ctx) bool {
 			report.SetCurrent(c)
+			hmu.Lock()
+			defer hmu.Unlock()
 			scenario(c)
-			synctest.Wait()
+			wait()
 			report.FlushCurrent()
 			return rep.NViolations() < 50
 		})
@@ -324,4 +347,28 @@ func rcodeName(rc int) string {
 		return "REFUSED"
 	}
 	return fmt.Sprint(rc)
+}
+
+// hmu orders the harness goroutine and the goroutines it observes for the race detector: the harness holds it
+// whenever it runs and releases it only while it waits for quiescence or lets virtual time pass; goroutines
+// that publish results for the harness take it while doing so.
+var hmu sync.Mutex
+
+func wait() {
+	hmu.Unlock()
+	synctest.Wait()
+	hmu.Lock()
+}
+
+func hsleep(d time.Duration) {
+	hmu.Unlock()
+	time.Sleep(d)
+	hmu.Lock()
+}
+
+// publish runs f (which stores results read by the harness) under hmu.
+func publish(f func()) {
+	hmu.Lock()
+	f()
+	hmu.Unlock()
 }
